@@ -23,7 +23,7 @@ SPEC = {
     "assumptions": ["documented minimum versions per construct (vlib/recipes.min_version)", "recipes from vlib/recipes.Gen are typed and definitely assigned by construction"],
     "min_evaluations": {"quick": 8000, "thorough": 80000},
     "must_reach": ["emitted", "pt_error", "skeleton_main", "skeleton_sub", "degenerate", "random_wellformed", "catalogue", "ladder", "constants"],
-    "shard_timeout": {"quick": 600, "thorough": 7200},
+    "shard_timeout": {"quick": 2400, "thorough": 14400},
 }
 
 KNOWN_REC = "C20-recursion-depth-long-routine"
